@@ -86,6 +86,10 @@ def cases(tier, seed):
     for a, b in itertools.permutations(HOSTILE, 2):
         for mode in NAME_MODES:
             yield ['names', [a, b], mode]
+    # --shuffle without a seed: the listing for the seed the run reports is
+    # what the run executed - sequentially, under -j2, with resumed layers
+    for wi in (3, 7, 12, 20, 33):
+        yield ['seedless', wi, None]
 
 
 # layer names that are not plain identifiers: the name travels to the child
@@ -337,6 +341,8 @@ def build(w, nie):
 
 def setup_worker():
     runrt._mods()
+    from vt.props import c11
+    c11.setup_worker()
 
 
 LIST_RE = re.compile(r'^Listing (\S+) tests:$')
@@ -365,6 +371,11 @@ def run_case(case):
     if case[0] == 'disk':
         viol = run_disk_case(case[1], case[2])
         return {'evals': 2, 'nontrivial': 2, 'violations': viol, 'outcome': ('disk', case[1])}
+    if case[0] == 'seedless':
+        from vt.props import c11
+        evals, vs = c11.run_seedless(case[1])
+        viol = [{'clause': c, 'sig': dict(sg, part='seedless'), 'detail': d} for c, sg, d in vs]
+        return {'evals': evals, 'nontrivial': evals, 'violations': viol, 'outcome': 'seedless'}
     if case[0] == 'names':
         viol = run_names_case(case[1], case[2])
         return {'evals': 1, 'nontrivial': 1, 'violations': viol, 'outcome': ('names', case[2])}
